@@ -35,7 +35,10 @@ class BlockView:
         self._array = array
 
     def __getitem__(self, index):
-        return new_collection(blocks_getitem(self._array.expr, index))
+        # Block indices refer to the advertised block grid: pin it so that an
+        # optimization that re-chunks the array cannot change which data a
+        # block index denotes.
+        return new_collection(blocks_getitem(self._array.freeze_chunks().expr, index))
 
     def __eq__(self, other):
         # Check if other is any BlockView type (including legacy)
